@@ -287,6 +287,12 @@ func (s *Stream) startConsume(consumer Consumer, packetType PacketType, extra st
 	cs.Add(c)
 
 	go c.consume()
+
+	// 流可能在查找之后、加入之前已经结束（close 已执行完 RemoveAndCloseAll）：
+	// 此时加入的消费者不会再被任何人释放，立即移除并关闭它
+	if atomic.LoadInt32(&s.status) != StreamOK {
+		s.StopConsume(c.cid)
+	}
 	return c.cid
 }
 
